@@ -773,7 +773,10 @@ fn push_prefix(
     let mut child = None;
     if let Some(node) = node {
         for it in &mut node.children {
-            if it.label == *label {
+            /* A compression pointer only has 14 bits of offset, labels that were first written
+             * at or beyond 16384 cannot be pointed at.
+             */
+            if it.label == *label && it.data < 0x4000 {
                 child = Some(&mut *it);
             }
         }
